@@ -58,6 +58,8 @@ def run(F, R):
     _lf = _c3.last_used_field(F, M, _by['can_pop'][0]) if 'can_pop' in _by else None
     if _lf and 'pop_used' in _by:
         _c3.e1_e2_pop(F, RuleProxy(R, {'E1': 'K9', 'E2': 'K9'}), M, _by['pop_used'][0], _lf)
+        # ... and the token a non-blocking caller is told (peek) is read from the same used-ring slot the pop will consume
+        guard(R, 'K9', 'all-slots', lambda: _c3.e2b_all_slots(F, RuleProxy(R, {'E2': 'K9'}), M, _lf))
     # K13: completions keep being seen after the 16-bit ring indices wrap (65536 requests on one queue): wrap-safe counters
     # and the folded completion test (C03.E5 / E9)
     _c3.counters_rule(F, R, 'K13')
